@@ -182,8 +182,16 @@ impl<'a, 'tcx> Cx<'a, 'tcx> {
         match c.const_ {
             Const::Unevaluated(uv, _) => {
                 v.push(("def", J::s(&self.tcx.def_path_str(uv.def))));
-                if uv.promoted.is_some() {
+                if let Some(pidx) = uv.promoted {
                     v.push(("promoted", J::b(true)));
+                    // a promoted `&CONST` / `&"lit"`: report the string it refers to
+                    if let Some(s) = self.promoted_str(uv.def, pidx) {
+                        v.push(("str", J::s(&s)));
+                        v.push(("str_via", J::s("promoted")));
+                    }
+                } else if let Some(s) = self.const_str(uv.def) {
+                    v.push(("str", J::s(&s)));
+                    v.push(("str_via", J::s("const")));
                 }
             }
             _ => {}
@@ -193,6 +201,53 @@ impl<'a, 'tcx> Cx<'a, 'tcx> {
         }
         v.push(("dbg", J::s(&format!("{}", c.const_))));
         J::obj(v)
+    }
+
+    /// value of a `const X: &str` item
+    fn const_str(&self, did: rustc_hir::def_id::DefId) -> Option<String> {
+        let ty = self.tcx.type_of(did).instantiate_identity().skip_norm_wip();
+        if let ty::Ref(_, inner, _) = ty.kind() {
+            if inner.is_str() {
+                if let Ok(val) = self.tcx.const_eval_poly(did) {
+                    if let Some(bytes) = val.try_get_slice_bytes_for_diagnostics(self.tcx) {
+                        return Some(String::from_utf8_lossy(bytes).to_string());
+                    }
+                }
+            }
+        }
+        None
+    }
+
+    /// string behind a promoted `&<str constant>` (`_1 = const X; _0 = &_1`)
+    fn promoted_str(&self, did: rustc_hir::def_id::DefId, pidx: rustc_middle::mir::Promoted) -> Option<String> {
+        let ldid = did.as_local()?;
+        let proms = self.tcx.promoted_mir(ldid.to_def_id());
+        let body = proms.get(pidx)?;
+        for bb in body.basic_blocks.iter() {
+            for st in bb.statements.iter() {
+                if let StatementKind::Assign(b) = &st.kind {
+                    if let Rvalue::Use(Operand::Constant(c2), ..) = &b.1 {
+                        let ty = c2.const_.ty();
+                        if let ty::Ref(_, inner, _) = ty.kind() {
+                            if inner.is_str() {
+                                match c2.const_ {
+                                    Const::Val(cv, _) => {
+                                        if let Some(bytes) = cv.try_get_slice_bytes_for_diagnostics(self.tcx) {
+                                            return Some(String::from_utf8_lossy(bytes).to_string());
+                                        }
+                                    }
+                                    Const::Unevaluated(uv2, _) if uv2.promoted.is_none() => {
+                                        return self.const_str(uv2.def);
+                                    }
+                                    _ => {}
+                                }
+                            }
+                        }
+                    }
+                }
+            }
+        }
+        None
     }
 
     fn operand(&self, o: &Operand<'tcx>) -> J {
@@ -661,6 +716,15 @@ fn dump_crate<'tcx>(tcx: TyCtxt<'tcx>) -> J {
                             let bits = s.to_bits(s.size());
                             if bits <= i128::MAX as u128 {
                                 e.push(("val", J::n(bits as i128)));
+                            }
+                        }
+                    }
+                }
+                if let ty::Ref(_, inner, _) = ty.kind() {
+                    if inner.is_str() {
+                        if let Ok(val) = tcx.const_eval_poly(did) {
+                            if let Some(bytes) = val.try_get_slice_bytes_for_diagnostics(tcx) {
+                                e.push(("str", J::s(&String::from_utf8_lossy(bytes))));
                             }
                         }
                     }
